@@ -53,7 +53,7 @@ def run_demo(demo):
 
 def cmd_import(pid, src):
     out = {}
-    for x in ("A", "B", "C", "D", "E", "F", "G", "H", "I", "J", "K", "L", "M", "N", "O"):
+    for x in ("A", "B", "C", "D", "E", "F", "G", "H", "I", "J", "K", "L", "M", "N", "O", "P", "Q"):
         d, dm, mt = (os.path.join(src, f"{x}{s}") for s in (".diff", "_demo.py", "_meta.json"))
         if not (os.path.exists(d) and os.path.exists(dm)):
             continue
